@@ -23,6 +23,7 @@ import (
 	"errors"
 	"fmt"
 	"github.com/nuts-foundation/go-stoabs"
+	"github.com/nuts-foundation/nuts-node/crypto/jwx"
 	"github.com/nuts-foundation/nuts-node/vdr/resolver"
 
 	"github.com/lestrrat-go/jwx/v2/jwa"
@@ -54,6 +55,11 @@ func NewTransactionSignatureVerifier(resolver resolver.NutsKeyResolver) Verifier
 				return fmt.Errorf("unable to verify transaction signature, can't resolve key by TX ref (kid=%s, tx=%s): %w", transaction.SigningKeyID(), transaction.Ref().String(), err)
 			}
 			signingKey = pk
+		}
+		// jws.Verify only checks that the algorithm's family fits the key type: it verifies e.g. an ES256 signature made with
+		// a P-384 key. The algorithm must fit the key (RFC 7518 section 3.4).
+		if !jwx.AlgorithmFitsKey(jwa.SignatureAlgorithm(transaction.SigningAlgorithm()), signingKey) {
+			return fmt.Errorf("signing algorithm %s does not fit the signing key (tx=%s)", transaction.SigningAlgorithm(), transaction.Ref().String())
 		}
 		// TODO: jws.Verify parses the JWS again, which we already did when parsing the transaction. If we want to optimize
 		// this we need to implement a custom verifier.
